@@ -80,6 +80,12 @@ func ArrayToAppendAction() RewriteAction {
 			return []ast.Option{option}
 		}
 
+		// the option already appends (array of arrays): unwrapping the argument
+		// once more would append an element of the wrong type.
+		if len(option.Assignments) == 0 || option.Assignments[0].Method == ast.AppendAssignment {
+			return []ast.Option{option}
+		}
+
 		// Update the argument type from list to a single value
 		oldArgs := option.Args
 
